@@ -60,7 +60,7 @@ class C19:
         "translator: shape facts of MappedWrite/TeeWrite/write_child_process_output",
         "harness (public mapped/tee/CommandExt API; the harness binary itself is the scripted child)",
     ]
-    assumptions = ["writers passed to the helpers do not fail"]
+    assumptions = ["writers passed to the helpers do not fail (they may write short: at most max bytes per call)"]
 
     def corpus(self):
         return [{"kind": "mapped", "mapper": "prefix", "marker": 10, "chunks": [[102, 111, 111, 10]], "finish": "drop"}]
@@ -77,13 +77,16 @@ class C19:
                     if rng.random() < 0.1:
                         ch = ch[:]
                         ch.insert(rng.randint(0, len(ch)), [])
-                    cases.append({"kind": "mapped", "mapper": mp, "marker": mk, "chunks": ch, "finish": rng.choice(["drop", "unwrap"])})
+                    cases.append({"kind": "mapped", "mapper": mp, "marker": mk, "chunks": ch, "finish": rng.choice(["drop", "unwrap"]),
+                                  "max": rng.choice([None, None, 1, 2])})
         for _ in range(300):
             data = [rng.choice([0, 10, 255, 65]) for _ in range(rng.randint(0, 12))]
             cuts = sorted(rng.sample(range(len(data) + 1), min(len(data) + 1, rng.randint(0, 4))))
             ch = [data[a:b] for a, b in zip([0] + cuts, cuts + [len(data)])]
-            cases.append({"kind": "tee", "chunks": ch})
-            cases.append({"kind": "mapped", "mapper": rng.choice(list(MAPPERS)), "marker": rng.choice([10, 0, 255]), "chunks": ch, "finish": "drop"})
+            # targets that take at most max bytes per write call (short writes are legal for any io::Write)
+            cases.append({"kind": "tee", "chunks": ch, "max_a": rng.choice([None, 1, 3, 64]), "max_b": rng.choice([None, 1, 2, 5])})
+            cases.append({"kind": "mapped", "mapper": rng.choice(list(MAPPERS)), "marker": rng.choice([10, 0, 255]), "chunks": ch, "finish": "drop",
+                          "max": rng.choice([None, 1, 7])})
         # commands
         scripts = []
         sizes = [0, 1, 100, PIPE - 1, PIPE, PIPE + 1, 2 * PIPE + 17, 4 * PIPE]
@@ -102,7 +105,7 @@ class C19:
         if tier != "thorough":
             scripts = rng.sample(scripts, 70)
         for sc in scripts:
-            cases.append({"kind": "command", "script": sc})
+            cases.append({"kind": "command", "script": sc, "max": rng.choice([None, None, 7, 4096])})
         return cases
 
     def run_impl(self, cases, workdir):
